@@ -35,6 +35,7 @@ pub const PANIC_CODE: u32 = 0xdead_beef;
 pub const PRIV_ESCALATION_CODE: u32 = 0xdead_0001;
 pub const READONLY_MODIFIED_CODE: u32 = 0xdead_0002;
 pub const UNBALANCED_CODE: u32 = 0xdead_0003;
+pub const EXTERNAL_MODIFIED_CODE: u32 = 0xdead_0005;
 
 /// Program id of the proxy ("called via CPI") program registered under an id that is on the
 /// receivership allow-list (Jupiter) and under an unknown id.
@@ -115,9 +116,31 @@ impl program_stubs::SyscallStubs for Stubs {
         if STACK.with(|s| s.borrow().len()) >= 5 {
             return Err(ProgramError::Custom(0xdead_0004));
         }
+        // runtime rule: a program may change the data / debit the lamports / change the owner only of
+        // accounts it owns (SPL-Token relies on this instead of checking token-account owners)
+        let pre: Vec<(Pubkey, u64, Vec<u8>)> = callee_ais.iter().map(|a| (*a.owner, **a.lamports.borrow(), a.data.borrow().to_vec())).collect();
         STACK.with(|s| s.borrow_mut().push(ix.program_id));
         let r = dispatch(&ix.program_id, &callee_ais, &ix.data);
         STACK.with(|s| s.borrow_mut().pop());
+        if r.is_ok() {
+            // nested programs (proxy -> marginfi -> token) are checked at their own level
+            let transparent = ix.program_id == proxy_id_allowed() || ix.program_id == proxy_id_unknown();
+            if !transparent {
+                for (a, (owner0, lam0, data0)) in callee_ais.iter().zip(pre.iter()) {
+                    let owned = *owner0 == ix.program_id;
+                    let data_changed = a.data.borrow().as_ref() != data0.as_slice();
+                    let debited = **a.lamports.borrow() < *lam0;
+                    let owner_changed = a.owner != owner0;
+                    if (data_changed || debited || owner_changed) && !owned {
+                        // marginfi itself CPIs further (token transfers): accounts changed by its callees
+                        // were already checked there, so only direct callees that are leaf programs are judged
+                        if ix.program_id != marginfi::ID {
+                            return Err(ProgramError::Custom(EXTERNAL_MODIFIED_CODE));
+                        }
+                    }
+                }
+            }
+        }
         r
     }
 }
